@@ -51,10 +51,21 @@ type Ctl struct {
 	lastKey string
 	stop    bool
 	NoPark  bool // log events without parking (used for the second Run of a graph, which launches nothing)
+	// Fill - "fill the semaphore" schedule (single graph, no shared tasks): workers are held inside their task
+	// function (parked at `enter`) until min(FillLimit, workers in flight) of them are inside at once. If the
+	// scheduler has nothing more to launch, nobody else can be released and fewer workers than that got in, the
+	// others are blocked although a slot is free: a `starved` event is logged (the specification has no such action).
+	Fill      bool
+	FillLimit int
+	FillG     string
+	fillIdle  int
+	parkedEv  map[string]string
 }
 
+const fillPatience = 1500 // scheduler ticks granted to a worker that should be able to take a free slot
+
 func NewCtl(seed int64) *Ctl {
-	return &Ctl{parked: map[string]chan struct{}{}, rng: rand.New(rand.NewSource(seed)), lastEvt: time.Now(), Gather: 30 * time.Microsecond}
+	return &Ctl{parkedEv: map[string]string{}, parked: map[string]chan struct{}{}, rng: rand.New(rand.NewSource(seed)), lastEvt: time.Now(), Gather: 30 * time.Microsecond}
 }
 
 func isSched(ev string) bool {
@@ -92,6 +103,7 @@ func (c *Ctl) Emit(e Event, park bool) {
 	}
 	ch := make(chan struct{})
 	c.parked[key] = ch
+	c.parkedEv[key] = e.Ev
 	c.mu.Unlock()
 	<-ch
 }
@@ -119,8 +131,17 @@ func (c *Ctl) Step() bool {
 		keys = append(keys, k)
 	}
 	sortStrings(keys)
+	if c.Fill {
+		keys = c.fillChoice(keys)
+		if len(keys) == 0 {
+			// nothing may be released yet: somebody is on the way to its next hook
+			c.mu.Unlock()
+			time.Sleep(20 * time.Microsecond)
+			return true
+		}
+	}
 	var key string
-	if _, ok := c.parked[c.lastKey]; ok && c.rng.Float64() < c.Sticky {
+	if _, ok := c.parked[c.lastKey]; ok && c.rng.Float64() < c.Sticky && contains(keys, c.lastKey) {
 		key = c.lastKey
 	} else {
 		key = keys[c.rng.Intn(len(keys))]
@@ -174,6 +195,25 @@ func (c *Ctl) IdleStall(n int) bool {
 		}
 	}
 	return true
+}
+
+// WorkersInFlight - worker goroutines of graph g that were launched and have not yet logged their last hook.
+func (c *Ctl) WorkersInFlight(g string) int {
+	c.mu.Lock()
+	defer c.mu.Unlock()
+	n := 0
+	for _, e := range c.Log {
+		if e.G != g {
+			continue
+		}
+		if e.Ev == "launch" && e.K == "run" {
+			n++
+		}
+		if e.Ev == "releasing" {
+			n--
+		}
+	}
+	return n
 }
 
 func (c *Ctl) NumEvents() int {
@@ -252,4 +292,73 @@ func isWorkerEv(ev string) bool {
 		return true
 	}
 	return false
+}
+
+func contains(keys []string, k string) bool {
+	for _, x := range keys {
+		if x == k {
+			return true
+		}
+	}
+	return false
+}
+
+// fillChoice - the goroutines that may be released next under the fill schedule (c.mu is held).
+func (c *Ctl) fillChoice(keys []string) []string {
+	held, workers, sched := []string{}, []string{}, []string{}
+	for _, k := range keys {
+		switch {
+		case k[0] == 'S':
+			sched = append(sched, k)
+		case c.parkedEv[k] == "enter":
+			held = append(held, k)
+		default:
+			workers = append(workers, k)
+		}
+	}
+	if len(workers) > 0 {
+		c.fillIdle = 0
+		return workers // bring every launched worker as far as it gets
+	}
+	inflight := 0
+	lastIdle := false
+	for _, e := range c.Log {
+		if e.G != c.FillG {
+			continue
+		}
+		if e.Ev == "launch" && e.K == "run" {
+			inflight++
+		}
+		if e.Ev == "releasing" {
+			inflight--
+		}
+		if isSched(e.Ev) {
+			lastIdle = e.Ev == "idle"
+		}
+	}
+	target := c.FillLimit
+	if inflight < target {
+		target = inflight
+	}
+	if !lastIdle {
+		return sched // let the scheduler launch what it can (nothing to release while it is between two hooks)
+	}
+	if len(held) >= target {
+		c.Fill = false // the semaphore was filled: from here on the ordinary seeded choice
+		return keys
+	}
+	// somebody was launched, is not parked and did not get in although a slot is free: it gets fillPatience scheduler
+	// ticks to show up at its next hook
+	if len(sched) == 0 {
+		return nil // the scheduler is between two hooks
+	}
+	c.fillIdle++
+	if c.fillIdle <= fillPatience {
+		return sched
+	}
+	e := Event{Ev: "starved", G: c.FillG, N: len(held), Limit: c.FillLimit}
+	e.norm()
+	c.Log = append(c.Log, e)
+	c.Fill = false
+	return keys
 }
